@@ -39,6 +39,8 @@ def check(m, run):
     ud1(m, run)
     n = ra.ax1_helper_calls(m, run, [fi for fi in m.funcs.values() if fi.mod in ('evaluators', 'helpers', '_operations')])
     run.floor('AX1.helper-call-one-axis', 19, 'per-direction helper calls in evaluators/helpers/_operations')
+    from .. import skel_drivers
+    skel_drivers.c03_order(m, run)      # linear and binary span search return the same (the defining) span for every knot order type of the box
     run.floor('KD1.cache-size-is-int', 5, 'five lru_cache sites')
     run.floor('AG4.span-call-shape', 10, 'slot call sites in evaluators/_operations/helpers')
     run.floor('EV1.evaluator-interface', 16, '8 classes x 2 methods')
